@@ -240,7 +240,11 @@ class LinDeformFixedTempl(Operator):
 
     def _call(self, displacement, out=None):
         """Implementation of ``self(displacement[, out])``."""
-        return linear_deform(self.template, displacement, self.interp, out)
+        if out is None:
+            return linear_deform(self.template, displacement, self.interp)
+        else:
+            out[:] = linear_deform(self.template, displacement, self.interp)
+            return out
 
     def derivative(self, displacement):
         """Derivative of the operator at ``displacement``.
@@ -426,7 +430,11 @@ class LinDeformFixedDisp(Operator):
 
     def _call(self, template, out=None):
         """Implementation of ``self(template[, out])``."""
-        return linear_deform(template, self.displacement, self.interp, out)
+        if out is None:
+            return linear_deform(template, self.displacement, self.interp)
+        else:
+            out[:] = linear_deform(template, self.displacement, self.interp)
+            return out
 
     @property
     def inverse(self):
